@@ -25,7 +25,7 @@ func rulesC12(c *Ctx) {
 		adds := p.callsIn(fn, "objects.Application.AddAllocation")
 		for i, add := range adds {
 			st := p.StateAt(fn, add)
-			if st == nil || len(add.Args) != 1 {
+			if st == nil || len(add.Args) < 1 {
 				continue
 			}
 			subj := T(add.Args[0], st)
@@ -46,7 +46,7 @@ func rulesC12(c *Ctx) {
 					}
 					return false
 				},
-				"objects.Node.AddAllocation": func(call *ast.CallExpr) bool { return len(call.Args) == 1 && p.Same(T(call.Args[0], st), subj) },
+				"objects.Node.AddAllocation": func(call *ast.CallExpr) bool { return len(call.Args) >= 1 && p.Same(T(call.Args[0], st), subj) },
 			}
 			for callee, pred := range need {
 				c.Check("C12.a", label+": "+shortFn(callee), add, p.DoneCall(st, pred, callee) != nil, "the allocation is added to the application without %s having been booked for the same allocation on this path: the replayed totals differ from what the live path booked", callee)
@@ -79,7 +79,7 @@ func rulesC12(c *Ctx) {
 				return true
 			}
 			gc, isC := unparen(as.Rhs[0]).(*ast.CallExpr)
-			if !isC || !p.IsCall(gc, "scheduler.PartitionContext.GetNode") || len(gc.Args) != 1 {
+			if !isC || !p.IsCall(gc, "scheduler.PartitionContext.GetNode") || len(gc.Args) < 1 {
 				return true
 			}
 			if nc, isN := unparen(gc.Args[0]).(*ast.CallExpr); isN && p.IsCall(nc, "objects.Allocation.GetNodeID") && Recv(nc) != nil && !p.isParam(fn, Recv(nc), 0) {
@@ -136,8 +136,8 @@ func rulesC12(c *Ctx) {
 		calls := p.callsIn(fn, pcT+".convertUGI")
 		for _, call := range calls {
 			ok := false
-			if len(call.Args) == 2 {
-				if fc, isCall := unparen(call.Args[1]).(*ast.CallExpr); isCall && p.IsCall(fc, "common.IsAppCreationForced") && len(fc.Args) == 1 {
+			if len(call.Args) >= 2 {
+				if fc, isCall := unparen(call.Args[1]).(*ast.CallExpr); isCall && p.IsCall(fc, "common.IsAppCreationForced") && len(fc.Args) >= 1 {
 					ok = strings.HasSuffix(p.Src(fc.Args[0]), ".Tags") && strings.HasSuffix(p.Src(call.Args[0]), ".Ugi") &&
 						strings.TrimSuffix(p.Src(fc.Args[0]), ".Tags") == strings.TrimSuffix(p.Src(call.Args[0]), ".Ugi")
 				}
